@@ -12,6 +12,7 @@ from ...entity_query_language.symbol_graph import (
     SymbolGraph,
     WrappedInstance,
 )
+from ... import verif_hooks as _verif
 
 if TYPE_CHECKING:
     from .property_descriptor import PropertyDescriptor
@@ -51,12 +52,24 @@ class PropertyDescriptorRelation(PredicateClassRelation):
         Add the relation to the graph and infer additional relations if possible. In addition, update the value of
          the wrapped field in the source instance if this relation is an inferred relation.
         """
+        if _verif.ENABLED:
+            _verif.emit(
+                "descriptor_relation",
+                phase="enter",
+                **_verif.relation_fields(SymbolGraph(), self),
+            )
         if super().add_to_graph():
             if self.inferred:
                 self.update_source_wrapped_field_value()
             self.infer_super_relations()
             self.infer_inverse_relation()
             self.infer_transitive_relations()
+        if _verif.ENABLED:
+            _verif.emit(
+                "descriptor_relation",
+                phase="exit",
+                **_verif.relation_fields(SymbolGraph(), self),
+            )
 
     def update_source_wrapped_field_value(self):
         """
